@@ -6,7 +6,7 @@ import os
 import re
 
 from . import refparse as P
-from .common import WORK, Stats, Violation, hx, pmap, shim
+from .common import WORK, Stats, Violation, hx, pmap, shim, finish
 
 S16 = ['형', '흑', '혀', '하', '엉', '앙', '앗', '가', '.', '…', '♥', '♡', '?', '!', ' ', '\n']
 S10 = ['형', '하', '앙', '흐', '읏', '.', '♥', '?', '!', '\n']
@@ -315,7 +315,7 @@ def run_c04(tier):
                   'check_listings': st.n.get('listings', 0), 'listing_lines': st.n.get('listing_lines', 0)},
         'samples': ['?형..♥ 하앙.', '혀가.엉…?♥❤!♡. 흑', '하앗\n 혀', '형.' + '?♥' * 3 + ' (…4096 operators)'],
     }
-    return cov, st.violations
+    return finish(cov, st)
 
 
 def _c04_task(t):
@@ -597,7 +597,7 @@ def run_c08(tier):
                   'listing_files': st.n.get('listings', 0), 'listing_lines': st.n.get('listing_lines', 0)},
         'samples': ['혀 a엉..♥❤?♡', '엉형.가 하…앙⋮ ?.♥', '하아앙…' + '?♥' * 2 + ' 흑.'],
     }
-    return cov, st.violations
+    return finish(cov, st)
 
 
 def _c08_task(t):
